@@ -141,9 +141,7 @@ static sexp sexp_get_bucket (sexp ctx, sexp buckets, sexp hash_fn, sexp obj) {
     args = sexp_list2(ctx, obj, sexp_make_fixnum(len));
     res = sexp_apply(ctx, hash_fn, args);
     if (sexp_exceptionp(res)) {
-      args = sexp_eval_string(ctx, "(current-error-port)", -1, sexp_context_env(ctx));
-      sexp_print_exception(ctx, res, args);
-      res = SEXP_ZERO;
+      /* the caller passes it on */
     } else if ((sexp_uint_t)sexp_unbox_fixnum(res) >= len) {
       res = SEXP_ZERO;
     }
@@ -177,7 +175,10 @@ static sexp sexp_scan_bucket (sexp ctx, sexp ls, sexp obj, sexp eq_fn) {
     sexp_gc_preserve1(ctx, res);
     for (p=ls; sexp_pairp(p); p=sexp_cdr(p)) {
       res = sexp_list2(ctx, sexp_caar(p), obj);
-      if (sexp_truep(sexp_apply(ctx, eq_fn, res))) {
+      res = sexp_apply(ctx, eq_fn, res);
+      if (sexp_exceptionp(res)) {
+        break;
+      } else if (sexp_truep(res)) {
         res = p;
         break;
       } else {
@@ -189,8 +190,8 @@ static sexp sexp_scan_bucket (sexp ctx, sexp ls, sexp obj, sexp eq_fn) {
   return res;
 }
 
-static void sexp_regrow_hash_table (sexp ctx, sexp ht, sexp oldbuckets, sexp hash_fn) {
-  sexp ls, *oldvec, *newvec;
+static sexp sexp_regrow_hash_table (sexp ctx, sexp ht, sexp oldbuckets, sexp hash_fn) {
+  sexp ls, *oldvec, *newvec, b;
   int i, j, oldsize=sexp_vector_length(oldbuckets), newsize=oldsize*2;
   sexp_gc_var1(newbuckets);
   sexp_gc_preserve1(ctx, newbuckets);
@@ -200,13 +201,19 @@ static void sexp_regrow_hash_table (sexp ctx, sexp ht, sexp oldbuckets, sexp has
     newvec = sexp_vector_data(newbuckets);
     for (i=0; i<oldsize; i++) {
       for (ls=oldvec[i]; sexp_pairp(ls); ls=sexp_cdr(ls)) {
-        j = sexp_unbox_fixnum(sexp_get_bucket(ctx, newbuckets, hash_fn, sexp_caar(ls)));
+        b = sexp_get_bucket(ctx, newbuckets, hash_fn, sexp_caar(ls));
+        if (sexp_exceptionp(b)) {  /* leave the table as it was */
+          sexp_gc_release1(ctx);
+          return b;
+        }
+        j = sexp_unbox_fixnum(b);
         sexp_push(ctx, newvec[j], sexp_car(ls));
       }
     }
     sexp_hash_table_buckets(ht) = newbuckets;
   }
   sexp_gc_release1(ctx);
+  return SEXP_VOID;
 }
 
 sexp sexp_hash_table_cell (sexp ctx, sexp self, sexp_sint_t n, sexp ht, sexp obj, sexp createp) {
@@ -220,16 +227,27 @@ sexp sexp_hash_table_cell (sexp ctx, sexp self, sexp_sint_t n, sexp ht, sexp obj
   eq_fn = sexp_hash_table_eq_fn(ht);
   hash_fn = sexp_hash_table_hash_fn(ht);
   i = sexp_get_bucket(ctx, buckets, hash_fn, obj);
+  if (sexp_exceptionp(i)) return i;
   res = sexp_scan_bucket(ctx, sexp_vector_ref(buckets, i), obj, eq_fn);
-  if (sexp_truep(res)) {
+  if (sexp_exceptionp(res)) {
+    /* an error in (or escape from) the equivalence procedure */
+  } else if (sexp_truep(res)) {
     res = sexp_car(res);
   } else if (sexp_truep(createp)) {
     sexp_gc_preserve1(ctx, res);
     size = sexp_unbox_fixnum(sexp_hash_table_size(ht));
     if (sexp_hash_resize_check(size, sexp_vector_length(buckets))) {
-      sexp_regrow_hash_table(ctx, ht, buckets, hash_fn);
+      res = sexp_regrow_hash_table(ctx, ht, buckets, hash_fn);
+      if (sexp_exceptionp(res)) {
+        sexp_gc_release1(ctx);
+        return res;
+      }
       buckets = sexp_hash_table_buckets(ht);
       i = sexp_get_bucket(ctx, buckets, hash_fn, obj);
+      if (sexp_exceptionp(i)) {
+        sexp_gc_release1(ctx);
+        return i;
+      }
     }
     res = sexp_cons(ctx, obj, createp);
     sexp_vector_set(buckets, i, sexp_cons(ctx, res, sexp_vector_ref(buckets, i)));
@@ -247,7 +265,9 @@ sexp sexp_hash_table_delete (sexp ctx, sexp self, sexp_sint_t n, sexp ht, sexp o
   eq_fn = sexp_hash_table_eq_fn(ht);
   hash_fn = sexp_hash_table_hash_fn(ht);
   i = sexp_get_bucket(ctx, buckets, hash_fn, obj);
+  if (sexp_exceptionp(i)) return i;
   res = sexp_scan_bucket(ctx, sexp_vector_ref(buckets, i), obj, eq_fn);
+  if (sexp_exceptionp(res)) return res;
   if (sexp_pairp(res)) {
     sexp_hash_table_size(ht) = sexp_fx_sub(sexp_hash_table_size(ht), SEXP_ONE);
     if (res == sexp_vector_ref(buckets, i)) {
